@@ -204,16 +204,37 @@ func ruleC20Load(cx *Ctx) {
 	for _, fn := range cx.P.FuncsOfPkg("") {
 		allInstrs(fn, func(in ssa.Instruction) {
 			if isCallTo(in, doCall) || isCallTo(in, doBulk) {
-				ok := false
-				if fn.Parent() != nil {
-					allInstrs(fn.Parent(), func(x ssa.Instruction) {
-						if isCallTo(x, wl) {
-							if a := callArgs(x); len(a) == 1 && closureOf(a[0]) == fn {
-								ok = true
+				// inside a closure handed to wrapLoad, or in a helper that is called only from such closures
+				var timed func(f *ssa.Function, depth int) bool
+				timed = func(f *ssa.Function, depth int) bool {
+					if f.Parent() != nil {
+						ok := false
+						allInstrs(f.Parent(), func(x ssa.Instruction) {
+							if isCallTo(x, wl) {
+								if a := callArgs(x); len(a) == 1 && closureOf(a[0]) == f {
+									ok = true
+								}
 							}
-						}
-					})
+						})
+						return ok
+					}
+					if depth > 2 || addressTaken(cx, f) {
+						return false
+					}
+					sites, all := 0, true
+					for _, g := range cx.P.ModuleFuncs() {
+						allInstrs(g, func(x ssa.Instruction) {
+							if isCallTo(x, f) {
+								sites++
+								if !timed(g, depth+1) {
+									all = false
+								}
+							}
+						})
+					}
+					return sites > 0 && all
 				}
+				ok := timed(fn, 0)
 				cx.R.Check(ok, rule, funcName(fn), "dispatch via wrapLoad", cx.P.where(in), "doCall/doBulkCall run only inside a closure handed to wrapLoad (every dispatch is timed and counted)")
 			}
 			// loader methods: invoked inside a closure that flows only into doCall/doBulkCall, or taken as method value passed there
